@@ -39,7 +39,7 @@ PLAN = {
                 "set_var_order[_seq]/from-table) over 3..7 variables on bdd, bcdd, zbdd; after every step the new handle is "
                 "compared (==, hash, cmp) with every live handle against its model table; full audits every 25 steps. "
                 "distinct = distinct (kind, operation, non-constant result table, #vars) observed.",
-        "assumptions": ["truth-table model is the specification", "ZBDD histories do not reorder (known finding C08-zbdd-level-swap-skipped-level)"],
+        "assumptions": ["truth-table model is the specification", "histories are sampled"],
         "jobs": [
             {"monitor": "c01_hist", "variant": "rel", "shards": 16},
             {"monitor": "c01_hist", "variant": "dbg", "shards": 16},
@@ -365,7 +365,7 @@ PLAN = {
             # the shared history monitors on the other backend
             {"monitor": "c01_hist", "variant": "pointer", "shards": 8},
             {"monitor": "c05_hist", "variant": "pointer", "shards": 8},
-            {"monitor": "c08_rand", "variant": "pointer", "shards": 8, "param": "01"},
+            {"monitor": "c08_rand", "variant": "pointer", "shards": 8},
             {"monitor": "c06_diff", "variant": "pointer", "shards": 8},
         ],
         "require_counters": {"all": ["histories", "suites", "digests_compared_across_variants"]},
@@ -379,11 +379,11 @@ PLAN = {
                 "adjacent swaps, tables unchanged, structure + ref-count audit, node_count minimal, rebuilt function == "
                 "surviving handle, then ops + gc + second reordering + teardown. distinct = distinct (kind, source, request, "
                 "variant) cases needing >= 1 swap.",
-        "assumptions": ["minimality brute-forced for n <= 7 only", "ZBDD cases are cut short at the first handle whose family changed (known finding)"],
+        "assumptions": ["minimality brute-forced for n <= 7 only", "a ZBDD case whose handles changed meaning is reported once and not explored further (no cascade)"],
         "jobs": [
             {"monitor": "c08_exh", "variant": "rel", "shards": 32},
             {"monitor": "c08_rand", "variant": "rel", "shards": 16},
-            {"monitor": "c08_rand", "variant": "dbg", "shards": 16, "param": "01"},  # ZBDD excluded: known finding aborts under debug assertions
+            {"monitor": "c08_rand", "variant": "dbg", "shards": 16},
         ],
         "require_counters": {"all": ["reorder_cases", "gcs_that_freed"]},
     },
@@ -543,7 +543,7 @@ MANIFEST_TEXT = {
     "C08": {
         "text": "Held on all enumerated (n=3 complete, n=4 all total requests) and sampled reorderings: order, brute-force "
                 "swap minimality, every live function unchanged, structural and reference-count audits, canonicity of "
-                "rebuilt functions, follow-up operations/gc/second reordering. One recorded known finding (ZBDD).",
+                "rebuilt functions, follow-up operations/gc/second reordering.",
         "design_ref": "DESIGN.md section 5 / C08",
         "note": "Trusted: truth tables, audits. MTBDD/TDD reordering covered by their own monitors; concurrent bubble sort by the large-diagram job.",
         "technique": "runtime monitoring: exhaustive small-scope enumeration of reorderings with model, audit and minimal-swap oracles",
